@@ -245,10 +245,10 @@ Print Assumptions C17_world_bijection.
 (* ... and every answer is right about the store (prefix bound now to the namespace, expands
    back) unless it is read from a cache entry that has become stale, which only a bind through
    ANOTHER manager can cause: [w_kf c = 0] says no operation of the history did that. *)
-Theorem C17_world_spec_ok_model : forall c,
+Theorem C17_world_spec_ok_model_partial : forall c,
   wc_wf c = true -> w_kf c = 0%N -> w_spec_ok c (w_model_obs c) = true.
 Proof. exact w_spec_ok_model. Qed.
-Print Assumptions C17_world_spec_ok_model.
+Print Assumptions C17_world_spec_ok_model_partial.
 
 (* Without the trigger hypothesis the statement is false (finding F6e): bind(a, h:e/) and
    qname(h:e/x) through manager 0, bind(b, h:e/) through manager 1, qname(h:e/x) through
@@ -313,3 +313,27 @@ Print Assumptions C17_serializer_header.
 Theorem C17_serializer_spec_model : forall c, ser_spec c (ser_model c) = true.
 Proof. exact ser_spec_model. Qed.
 Print Assumptions C17_serializer_spec_model.
+
+(* ---------------------------------------------------------------- *)
+(* Exceptions.  The checker accepts an exception only where the code may raise it, and only the
+   class it raises: reading of [exn_ok] for compute_qname / qname / curie. *)
+Theorem C17_exn_ok_reading : forall sp sps l r u g e,
+  exn_ok sp sps l r (OCompute u g) (RExn e) = true ->
+  (e = EValue /\ (valid_uri u = false \/ (sp u = None /\ forall p, dget r u = Some p -> p = []))) \/
+  (e = EKey /\ g = false /\ valid_uri u = true).
+Proof.
+  intros sp sps l r u g e. cbn [exn_ok]. unfold compute_exn_ok, sp_exists. destruct e; [| |discriminate].
+  - rewrite !andb_true_iff, negb_true_iff. intros [[A B] _]. right. auto.
+  - rewrite orb_true_iff, !negb_true_iff. intros [A|A]; left; split; auto.
+    right. destruct (sp u); [discriminate|]. split; [reflexivity|].
+    intros p Hp. rewrite Hp in A. now destruct p.
+Qed.
+Print Assumptions C17_exn_ok_reading.
+
+(* The two numbered-prefix searches of the code (the "while 1" of NamespaceManager.bind and of
+   compute_qname) end within |bindings|+1 rounds: the model's "does not end" outcome is
+   unreachable (pigeonhole; "%s" % num is injective). *)
+Theorem C17_while_loops_end : forall s base ns num,
+  find_num s base ns (S (length (p2n s))) num <> NLoop /\ find_ns s (S (length (p2n s))) num <> None.
+Proof. intros. split; [apply find_num_noloop|apply find_ns_some]. Qed.
+Print Assumptions C17_while_loops_end.
